@@ -377,10 +377,10 @@ func init() {
 	ext("("+pkgTypes+".RpcReadWriter).Write", "RpcReadWriter.Write(ctx,rpc): any error; the attempt is counted in ncalls (wire log)", func(c *ExtCtx) Val {
 		return c.fresh(0, "write.err")
 	})
-	ext("("+pkgTypes+".RpcReadWriter).Read", "RpcReadWriter.Read(ctx): (rpc, err) with err == nil ==> rpc != nil  (A-transport: no nil envelope without an error; a read error is not an OK-coded status error)", func(c *ExtCtx) Val {
+	ext("("+pkgTypes+".RpcReadWriter).Read", "RpcReadWriter.Read(ctx): (rpc, err) with err == nil ==> rpc != nil  (A-transport: exactly one of envelope and error is nil; a read error is not an OK-coded status error)", func(c *ExtCtx) Val {
 		r := c.fresh(0, "read.rpc")
 		e := c.fresh(1, "read.err")
-		c.st.assume("(=> (= " + e.T + " 0) (distinct " + r.T + " 0))")
+		c.st.assume("(= (= " + e.T + " 0) (distinct " + r.T + " 0))")
 		c.st.assume("(>= " + r.T + " 0)")
 		// A-transport: a read failure is never an OK-coded status error
 		c.st.assume("(=> (distinct " + e.T + " 0) (not (and (isStatus " + e.T + ") (= (stCode " + e.T + ") 0))))")
@@ -534,4 +534,26 @@ func init() {
 		"H.server.unaryServerTransportStream.headers", "H.server.unaryServerTransportStream.headersSent", "H.server.unaryServerTransportStream.trailers"}
 	externalWrites["fnfield:H.google.golang.org/grpc.MethodDesc.Handler"] = []string{
 		"H.server.unaryServerTransportStream.headers", "H.server.unaryServerTransportStream.headersSent", "H.server.unaryServerTransportStream.trailers"}
+}
+
+func init() {
+	streamUser := func(c *ExtCtx) Val {
+		// user stream handler / interceptor: may use the ServerStream it was given (SetHeader, SendMsg,
+		// RecvMsg ...) and therefore changes that stream's protected state and causes transport writes
+		for _, a := range externalWrites["fnfield:H.google.golang.org/grpc.StreamDesc.Handler"] {
+			c.st.havoc(a)
+		}
+		for _, k := range []string{"(types.RpcReadWriter).Write", "(types.RpcReadWriter).Read", "send", "recv"} {
+			old := c.st.counter(k)
+			c.st.cnt[k] = c.st.fresh("cnt."+k, "Int")
+			c.st.assume("(>= " + c.st.cnt[k] + " " + old + ")")
+		}
+		return c.fresh(0, "streamhandler.err")
+	}
+	ext("fnfield:H.google.golang.org/grpc.StreamDesc.Handler", "grpc.StreamDesc.Handler(srv,stream): user handler; may call the stream's methods (its protected header/trailer state and the number of writes change); writes no other goat state", streamUser)
+	ext("fnfield:H.goat.Server.streamInterceptor", "stream interceptor(srv,stream,info,handler): user code; assumed to call handler exactly once (A-user, C20) and to use only the stream", streamUser)
+	externalWrites["fnfield:H.google.golang.org/grpc.StreamDesc.Handler"] = []string{
+		"H.server.serverStream.protected.headers", "H.server.serverStream.protected.headersSent", "H.server.serverStream.protected.trailers", "H.server.serverStream.protected.trailersSent"}
+	externalWrites["fnfield:H.goat.Server.streamInterceptor"] = externalWrites["fnfield:H.google.golang.org/grpc.StreamDesc.Handler"]
+	externalWrites["fnfield:*"] = append(externalWrites["fnfield:*"], externalWrites["fnfield:H.google.golang.org/grpc.StreamDesc.Handler"]...)
 }
